@@ -61,7 +61,8 @@ class Scenario:
         for i in range(1, self.nlink):
             t.link("d/" + self.name, "d/other%d.lnk" % i if i % 2 else "outside%d.lnk" % i)
         if self.stale:
-            t.add_file("d/.#." + self.name + ".tmp", b"stale leftover", mode=0o600)
+            # longer than anything the handler will write: a leftover that is reused instead of replaced shows in the output
+            t.add_file("d/.#." + self.name + ".tmp", b"stale leftover " * ((len(self.data) + 8192) // 15 + 1), mode=0o600)
         t.add_file("d/bystander.txt", b"do not touch", mode=0o640, mtime_ns=NOW_NS - 5)
         p = t.path("d/" + self.name)
         os.chown(p, self.uid, self.gid)
